@@ -162,7 +162,9 @@ class StructParam(Parameter):
                 for membername, param in self.paramdict.items():
                     def cb(value, modobj=modobj, structparam=self, membername=membername):
                         if not structparam.insideRW:
-                            prev = dict(getattr(modobj, structparam.name))
+                            # take the other members from their own cache: the cache of the struct
+                            # might not yet be initialized
+                            prev = {m: getattr(modobj, p.name) for m, p in structparam.paramdict.items()}
                             prev[membername] = value
                             setattr(modobj, structparam.name, prev)
 
